@@ -1,6 +1,6 @@
 """Per-property configuration of the Kani/CBMC checks (harness overlays, bounds, tiers)."""
 
-COMMON_OVERLAYS = [("layer", "vkl.rs"), ("cel", "vkl.rs"), ("reader", "vkl.rs"), ("palette", "vkl.rs"), ("tile", "vkl.rs"), ("tilemap", "vkl.rs"), ("tileset", "vkl.rs")]
+COMMON_OVERLAYS = [("layer", "vkl.rs"), ("cel", "vkl.rs"), ("reader", "vkl.rs"), ("palette", "vkl.rs"), ("tile", "vkl.rs"), ("tilemap", "vkl.rs"), ("tileset", "vkl.rs"), ("tags", "vkl.rs")]
 
 COMMON_ASSUMPTIONS = [
     "Kani 0.68 MIR->goto translation and CBMC 6.11 + CaDiCaL are trusted; rustc dev-profile semantics "
@@ -49,6 +49,7 @@ PROPS["C03"] = dict(
         r"c03_q_normal_(alpha|red|green|blue)": dict(only_desc=r"normal == rgba_blender_normal", timeout=1500),
         r"c03_t_normal_internal_checks": dict(timeout=3000),
         r"c03_q_wrap_hsl_.*": dict(only_desc=r"HSL mode ==", timeout=900),
+        r"c03_t_hsl_helper_.*": dict(timeout=1500, mem_gb=10),
     },
     timeout_quick=900, timeout_thorough=2400,
     bounds="every integer harness ranges over the function's complete input domain (u8^2 for channel kernels, "
@@ -86,6 +87,7 @@ PROPS["C02"] = dict(
     extra_harnesses=dict(quick=[], thorough=[]),
     per_harness={
         r"c02_._fold_.*": dict(mem_gb=12, recursion={r"file::AsepriteFile::write_cel": 2}, timeout=1500),
+        r"c02_._frame_gate_.*": dict(mem_gb=12, timeout=1500),
     },
     jobs_thorough=6,
     bounds="raw cel unit: canvas <= 3x2, cel <= 2x2, offset over all of i16 x i16, opacities/pixels/mode unrestricted; "
@@ -135,16 +137,17 @@ PROPS["C01"] = dict(
     per_harness={r"c01_t_header_.*": dict(mem_gb=14, timeout=2400)},
     bounds="<= 2 entities per chunk (tags, slice keys, external files), names of 0-2 symbolic ASCII bytes, every numeric "
            "attribute over its full encodable range; header with all unused bytes symbolic and 1-2 empty frames; "
-           "3 layers for name lookup / iteration",
+           "3 layers / 3 tags for name lookup, optional lookup and iteration",
     outside="longer names and lists, multi-byte UTF-8 names, 3+ frames, palette entries (C11), cels (C06), user data (C10), "
-            "tag_by_name / external_file_by_id / tilesets().get lookups (std collections; not encoded)",
+            "external_file_by_id / tilesets().get lookups (hash maps; not encoded)",
 )
 
 
 PROPS["C11"] = dict(
     prefix="c11_",
     overlays=[("palette", "vk_c11.rs"), ("parse", "vk_c11p.rs")],
-    per_harness={r"c11_._new_palette_from_.*": dict(mem_gb=12, timeout=1500), r"c11_t_legacy_11_.*": dict(mem_gb=12, timeout=2400)},
+    per_harness={r"c11_._new_palette_from_.*": dict(mem_gb=12, timeout=1500), r"c11_t_legacy_11_.*": dict(mem_gb=12, timeout=2400),
+                 r"c11_._.*0011.*": dict(mem_gb=12, timeout=1500)},
     bounds="new-format chunks of 2 entries at first index 0 / 254 with symbolic flags, RGBA and a 1-byte name; legacy chunks of "
            "2 packets (2 + 1 colours) at concrete skip pairs (0,3) (1,2) (2,1) (0,0) with symbolic components; all 6-bit values; "
            "2 indexed pixels against a 3-entry sparse palette; both chunk orders for precedence",
@@ -189,6 +192,7 @@ PROPS["C05"] = dict(
     per_harness={
         r"c0[26]_._(fold|cel_image)_.*": dict(mem_gb=12, recursion={r"file::AsepriteFile::write_cel": 2}, timeout=1500),
         r"c08_q_tileset_images": dict(mem_gb=12),
+        r"c05_t_tilemap_exact": dict(mem_gb=12, timeout=1500),
     },
     jobs_quick=6,
     bounds="declared-vs-supplied sizes: 2x1 image cel / 2-tile tileset / 2x1 tilemap with 1 or 2 elements supplied, tile size 0 in "
